@@ -1,4 +1,4 @@
-"""C06 -- signature changes keep calls bound to the same values (R06.1-R06.7)."""
+"""C06 -- signature changes keep calls bound to the same values (R06.1-R06.8)."""
 from __future__ import annotations
 
 import ast
@@ -272,3 +272,17 @@ def check(ctx, res) -> None:
     from .c14 import fstring_prefix_rule
 
     fstring_prefix_rule(ctx, res, "R06.7")
+
+    # ---- R06.8 the receiver of a method call is everything up to the LAST dot before the parentheses
+    cp = idx.need_func("rope.refactor.functionutils._FunctionCallParser.get_parameters")
+    n8 = 0
+    for c in calls_in(cp.node):
+        if isinstance(c.func, ast.Attribute) and c.func.attr in ("index", "rindex", "find", "rfind", "split", "rsplit", "partition", "rpartition") \
+                and c.args and isinstance(c.args[0], ast.Constant) and c.args[0].value == ".":
+            n8 += 1
+            ok = c.func.attr.startswith("r")
+            res.add("R06.8", f"_FunctionCallParser.get_parameters|receiver-split#{n8}", ok, f"{cp.unit.rel}:{c.lineno}",
+                    "the call text is split at the last dot" if ok else
+                    f"the implicit first argument of a method call is cut with `{ast.unparse(c.func)}` at the FIRST dot: `self.inner.scale(2, 3)` is re-emitted "
+                    "as `self.scale(...)`, i.e. with another receiver", function=cp.qualname)
+    res.floor("R06.8", "receiver splits in the call parser", n8, 1)
